@@ -43,15 +43,13 @@ theorem unmarshalItems_rawItem (w : Bool) {t : Nat} {lp p : Bytes} (h1 : 1 ≤ t
     subst hx; exact rawItem_wf h1 h2 h)
   simpa [encEls, rawItem_callback w h1 h] using this
 
-/-- fast path: the unknown record keeps the length prefix AS RECEIVED;
-reflection path: the prefix is rewritten minimally -/
+/-- an unresolved item is kept byte for byte — length prefix as received — on both paths -/
 theorem decodeSet_rawItem_unknown (known : Nat → Bool) (w : Bool) {t : Nat} {lp p : Bytes}
     (h1 : 1 ≤ t) (h2 : t < 2 ^ 31) (h : IsVarint lp p.length) (hk : known t = false) :
-    decodeSet known w (rawItem t lp p).enc =
-      .ok ⟨[], tag t wBytes ++ (if w then lp else encVarint p.length) ++ p⟩ := by
+    decodeSet known w (rawItem t lp p).enc = .ok ⟨[], tag t wBytes ++ lp ++ p⟩ := by
   unfold decodeSet
-  rw [unmarshalItems_rawItem w h1 h2 h]
-  cases w <;> simp [applyItems, applyItem, hk, Content.empty, encBytes, List.append_assoc]
+  rw [unmarshalItems_rawItem true h1 h2 h]
+  simp [applyItems, applyItem, hk, Content.empty, List.append_assoc]
 
 /-! ### duplicate items of one extension -/
 
@@ -60,36 +58,231 @@ theorem decodeSet_duplicate_items (known : Nat → Bool) (w : Bool) {t : Nat} {p
     decodeSet known w (encodeItem t p1 ++ encodeItem t p2) = .ok ⟨[(t, p1 ++ p2)], []⟩ := by
   have he : encodeItem t p1 ++ encodeItem t p2 = encodeItems [(t, p1), (t, p2)] := by simp [encodeItems]
   unfold decodeSet
-  rw [he, unmarshalItems_encodeItems w _ (by
+  rw [he, unmarshalItems_encodeItems true _ (by
     intro x hx
     simp only [List.mem_cons, List.not_mem_nil, or_false] at hx
     rcases hx with rfl | rfl
     · exact ⟨h1, h2, hp1⟩
     · exact ⟨h1, h2, hp2⟩)]
-  cases w
-  · simp [applyItems, applyItem, cbValue, hk, Content.empty, mergeItem]
-  · have d1 := decBytes_enc hp1 []
-    have d2 := decBytes_enc hp2 []
-    simp only [List.append_nil] at d1 d2
-    simp [applyItems, applyItem, cbValue, hk, Content.empty, mergeItem, d1, d2]
+  have d1 := decBytes_enc hp1 []
+  have d2 := decBytes_enc hp2 []
+  simp only [List.append_nil] at d1 d2
+  simp [applyItems, applyItem, cbValue, hk, Content.empty, mergeItem, d1, d2]
 
-/-! ### the lazily kept form -/
-
-def lazyOthers (t : Nat) : List (Bytes × Bytes) → List Tok
-  | [] => []
-  | (lp, p) :: r => .other t 2 (lp ++ p) :: lazyOthers t r
+/-! ### the lazily kept form: one message field per record -/
 
 def lazyRecords (t : Nat) : List (Bytes × Bytes) → Bytes
   | [] => []
   | (lp, p) :: r => lazyRecord t (lp ++ p) ++ lazyRecords t r
 
+def lazyMsgs : List (Bytes × Bytes) → List Tok
+  | [] => []
+  | (lp, p) :: r => .message lp p :: lazyMsgs r
+
+/-- concatenation of the payloads -/
+def lazyPayload : List (Bytes × Bytes) → Bytes
+  | [] => []
+  | (_, p) :: r => p ++ lazyPayload r
+
+theorem lazyRecords_length_ge (t : Nat) : ∀ rs : List (Bytes × Bytes), rs.length ≤ (lazyRecords t rs).length
+  | [] => by simp [lazyRecords]
+  | (lp, p) :: r => by
+    have := lazyRecords_length_ge t r
+    have := tag_length_pos t wBytes
+    simp only [lazyRecords, lazyRecord, List.length_cons, List.length_append]; omega
+
+/-- the loop of `marshalMessageSetField` over the records of the lazy buffer -/
+theorem lazyFieldsLoop_records (t : Nat) : ∀ (rs : List (Bytes × Bytes)) (fuel : Nat) (b : Bytes),
+    (∀ r ∈ rs, IsVarint r.1 r.2.length) → rs.length < fuel →
+    lazyFieldsLoop (sizeTag t) fuel b (lazyRecords t rs) = .ok (b ++ encToks (lazyMsgs rs))
+  | [], fuel, b, _, hf => by
+    obtain ⟨f, rfl⟩ : ∃ f, fuel = f + 1 := ⟨fuel - 1, by simp at hf; omega⟩
+    simp [lazyFieldsLoop, lazyRecords, lazyMsgs, encToks]
+  | (lp, p) :: r, fuel, b, hv, hf => by
+    obtain ⟨f, rfl⟩ : ∃ f, fuel = f + 1 := ⟨fuel - 1, by simp at hf; omega⟩
+    have hlp := hv (lp, p) (by simp)
+    have ih := lazyFieldsLoop_records t r f (b ++ tag fieldMessage wBytes ++ (lp ++ p))
+      (fun y hy => hv y (by simp [hy])) (by simp at hf; omega)
+    have hts : sizeTag t = (tag t 2).length := sizeTag_eq t 2
+    have hne : (tag t 2 ++ (lp ++ (p ++ lazyRecords t r))).length ≠ 0 := by
+      have := tag_length_pos t 2; simp only [List.length_append]; omega
+    have hlt : ¬ (tag t 2 ++ (lp ++ (p ++ lazyRecords t r))).length < (tag t 2).length := by
+      simp only [List.length_append]; omega
+    have hd : (lp ++ (p ++ lazyRecords t r)).drop (lp.length + p.length) = lazyRecords t r := by
+      rw [← List.append_assoc]; exact List.drop_left' (by simp)
+    have htk : (lp ++ (p ++ lazyRecords t r)).take (lp.length + p.length) = lp ++ p := by
+      rw [← List.append_assoc]; exact List.take_left' (by simp)
+    simp only [lazyRecords, lazyRecord, wBytes, List.append_assoc, lazyFieldsLoop, hts, hne, hlt, if_false,
+      List.drop_left', decBytes_raw hlp, hd, htk]
+    simp only [wBytes, List.append_assoc, hts] at ih
+    rw [ih]
+    simp [lazyMsgs, encToks, Tok.enc, fieldMessage, List.append_assoc]
+
+/-- what `marshalMessageSetField` writes for an extension kept as raw records: ONE item, one
+message field per record -/
+theorem encodeLazyItem_records (t : Nat) (rs : List (Bytes × Bytes)) (hv : ∀ r ∈ rs, IsVarint r.1 r.2.length) :
+    encodeLazyItem t (lazyRecords t rs) = .ok (El.item (.typeId t :: lazyMsgs rs)).enc := by
+  unfold encodeLazyItem
+  rw [lazyFieldsLoop_records t rs _ _ hv (by have := lazyRecords_length_ge t rs; omega)]
+  simp [appendFieldEnd, appendFieldStart, El.enc, encToks, Tok.enc, fieldItem, fieldTypeID, wStartGroup,
+    wVarint, wEndGroup, List.append_assoc]
+
+theorem lazyMsgs_wf : ∀ rs : List (Bytes × Bytes), (∀ r ∈ rs, IsVarint r.1 r.2.length) → ∀ x ∈ lazyMsgs rs, x.WF
+  | [], _, x, hx => by simp [lazyMsgs] at hx
+  | (lp, p) :: r, hv, x, hx => by
+    simp only [lazyMsgs, List.mem_cons] at hx
+    rcases hx with rfl | hx
+    · exact hv (lp, p) (by simp)
+    · exact lazyMsgs_wf r (fun y hy => hv y (by simp [hy])) x hx
+
+theorem toksLen_lazyMsgs : ∀ rs : List (Bytes × Bytes), toksLen (lazyMsgs rs) = (lazyPayload rs).length
+  | [] => rfl
+  | (lp, p) :: r => by simp [lazyMsgs, toksLen, Tok.len, lazyPayload, toksLen_lazyMsgs r]
+
+def MsgSt.payload : MsgSt → Bytes
+  | none => []
+  | some (_, p) => p
+
+theorem MsgSt.len_eq (m : MsgSt) : m.len = m.payload.length := by
+  cases m with
+  | none => rfl
+  | some x => rfl
+
+/-- folding over message fields only: the type id stays, the payloads are appended, the state
+stays well-formed -/
+theorem foldl_lazyMsgs : ∀ (rs : List (Bytes × Bytes)) (t : Nat) (m : MsgSt),
+    (∀ r ∈ rs, IsVarint r.1 r.2.length) → m.WF → m.payload.length + (lazyPayload rs).length < 2 ^ 64 →
+    ((lazyMsgs rs).foldl stepTok (t, m)).1 = t ∧
+    ((lazyMsgs rs).foldl stepTok (t, m)).2.payload = m.payload ++ lazyPayload rs ∧
+    ((lazyMsgs rs).foldl stepTok (t, m)).2.WF
+  | [], t, m, _, hm, _ => by simp [lazyMsgs, lazyPayload, hm]
+  | (lp, p) :: r, t, m, hv, hm, hb => by
+    have hlp := hv (lp, p) (by simp)
+    simp only [lazyPayload, List.length_append] at hb
+    have hs := stepTok_wf t m (.message lp p) hm hlp (by rw [MsgSt.len_eq]; simp only [Tok.len]; omega)
+    have h1 : (stepTok (t, m) (.message lp p)).1 = t := by
+      cases m with
+      | none => rfl
+      | some y => rfl
+    have hp : (stepTok (t, m) (.message lp p)).2.payload = m.payload ++ p := by
+      cases m with
+      | none => rfl
+      | some y => rfl
+    have ih := foldl_lazyMsgs r (stepTok (t, m) (.message lp p)).1 (stepTok (t, m) (.message lp p)).2
+      (fun y hy => hv y (by simp [hy])) hs.1 (by rw [hp]; simp only [List.length_append]; omega)
+    simp only [lazyMsgs, List.foldl_cons, lazyPayload]
+    refine ⟨by rw [ih.1, h1], by rw [ih.2.1, hp, List.append_assoc], ih.2.2⟩
+
+/-- the value delivered for an item whose accumulated message state is `m`, read back by
+`ConsumeBytes`: the payload -/
+theorem decBytes_finMsg (m : MsgSt) (hm : m.WF) :
+    ∃ k, decBytes (finMsg true (repMsg true m)) = .ok (m.payload, k) := by
+  cases m with
+  | none =>
+    have := decBytes_enc (p := []) (by simp) []
+    simp only [encBytes, List.append_nil, List.length_nil] at this
+    exact ⟨_, by simpa [finMsg, repMsg, MsgSt.payload] using this⟩
+  | some x =>
+    obtain ⟨lp, p⟩ := x
+    have hlp : lp ≠ [] := by
+      intro hc; have := IsVarint.length_pos hm; simp [hc] at this
+    have hd := decBytes_raw hm []
+    simp only [List.append_nil] at hd
+    exact ⟨_, by simpa [finMsg, repMsg, MsgSt.payload, hlp] using hd⟩
+
+/-- LAZY ROUND TRIP: decoding the item written for a lazily kept extension (either path) gives the
+extension with the payloads of ALL its occurrences appended — exactly what decoding the original
+items eagerly gives -/
+theorem decodeSet_lazyItem (known : Nat → Bool) (w : Bool) {t : Nat} (rs : List (Bytes × Bytes))
+    (h1 : 1 ≤ t) (h2 : t < 2 ^ 31) (hrs : ∀ r ∈ rs, IsVarint r.1 r.2.length)
+    (hlen : (lazyPayload rs).length < 2 ^ 64) (hk : known t = true) :
+    ∃ b, encodeLazyItem t (lazyRecords t rs) = .ok b ∧
+      decodeSet known w b = .ok ⟨[(t, lazyPayload rs)], []⟩ := by
+  refine ⟨_, encodeLazyItem_records t rs hrs, ?_⟩
+  have hwf : (El.item (.typeId t :: lazyMsgs rs)).WF := by
+    refine ⟨?_, ?_⟩
+    · intro y hy
+      simp only [List.mem_cons] at hy
+      rcases hy with rfl | hy
+      · exact ⟨h1, h2⟩
+      · exact lazyMsgs_wf rs hrs y hy
+    · simpa [toksLen, Tok.len, toksLen_lazyMsgs] using hlen
+  have hu := unmarshalItems_els true [El.item (.typeId t :: lazyMsgs rs)] (by
+    intro x hx
+    simp only [List.mem_cons, List.not_mem_nil, or_false] at hx
+    subst hx; exact hwf)
+  have h0 : t ≠ 0 := by omega
+  obtain ⟨f1, f2, f3⟩ := foldl_lazyMsgs rs t none hrs trivial (by simpa [MsgSt.payload] using hlen)
+  obtain ⟨k, hk'⟩ := decBytes_finMsg _ f3
+  simp only [encEls, List.append_nil] at hu
+  unfold decodeSet
+  rw [hu]
+  simp only [List.filterMap_cons, List.filterMap_nil, El.callback, List.foldl_cons, stepTok, f1, h0, if_false,
+    applyItems, applyItem, hk, if_true, hk', Content.empty, mergeItem]
+  rw [f2]; rfl
+
+/-- `sizeMessageSet` and `marshalMessageSetField` walk the lazy buffer in lockstep -/
+theorem lazySizeLoop_fields (ts : Nat) : ∀ (fuel : Nat) (b lb out : Bytes) (n : Nat),
+    lazyFieldsLoop ts fuel b lb = .ok out →
+    ∃ k, out.length = b.length + k ∧ lazySizeLoop ts fuel n lb = .ok (n + k)
+  | 0, _, _, _, _, h => by simp [lazyFieldsLoop] at h
+  | fuel + 1, b, lb, out, n, h => by
+    unfold lazyFieldsLoop at h
+    unfold lazySizeLoop
+    split at h
+    · rename_i h0
+      simp only [Except.ok.injEq] at h; subst h
+      exact ⟨0, by simp, by simp [h0]⟩
+    · rename_i h0
+      simp only [h0, if_false]
+      split at h
+      · simp at h
+      · rename_i hts
+        simp only [hts, if_false]
+        simp only [] at h
+        split at h
+        · simp at h
+        · rename_i pl m hm
+          obtain ⟨k', hk1, hk2⟩ := lazySizeLoop_fields ts fuel _ _ out (n + (sizeTag fieldMessage + m)) h
+          have hle := decBytes_len hm
+          refine ⟨sizeTag fieldMessage + m + k', ?_, ?_⟩
+          · rw [hk1]
+            simp only [List.length_append, List.length_take, sizeTag_eq fieldMessage wBytes]
+            omega
+          · rw [hk2]; congr 1; omega
+
+theorem encodeLazyItem_length {t : Nat} {lb out : Bytes} (h : encodeLazyItem t lb = .ok out) :
+    sizeLazyItem t lb = .ok out.length := by
+  unfold encodeLazyItem at h
+  split at h
+  · simp at h
+  · rename_i b hb
+    simp only [Except.ok.injEq] at h; subst h
+    obtain ⟨k, h1, h2⟩ := lazySizeLoop_fields _ _ _ _ _ (sizeField t) hb
+    unfold sizeLazyItem
+    rw [h2]
+    congr 1
+    simp only [appendFieldEnd, appendFieldStart, List.length_append, List.length_nil] at h1 ⊢
+    simp only [sizeField, sizeVarint, sizeTag_eq fieldItem wStartGroup, sizeTag_eq fieldTypeID wVarint]
+    have := sizeTag_eq fieldItem wEndGroup
+    rw [sizeTag_eq fieldItem wStartGroup] at this
+    omega
+
+/-! ### historical: the code before the repairs 2afca19 / ff1f95d (regression examples only) -/
+namespace Old
+
+/-- `marshalMessageSetField` before 2afca19: `lb[xi.tagsize:]` behind a single message tag -/
+def encodeLazyItem (t : Nat) (lb : Bytes) : Bytes :=
+  appendFieldEnd (appendFieldStart [] t ++ tag fieldMessage wBytes ++ lb.drop (sizeTag t))
+
+def lazyOthers (t : Nat) : List (Bytes × Bytes) → List Tok
+  | [] => []
+  | (lp, p) :: r => .other t 2 (lp ++ p) :: lazyOthers t r
+
 theorem encToks_lazyOthers (t : Nat) : ∀ rs, encToks (lazyOthers t rs) = lazyRecords t rs
   | [] => rfl
   | (lp, p) :: r => by simp [lazyOthers, lazyRecords, encToks, Tok.enc, lazyRecord, wBytes, encToks_lazyOthers t r]
 
-/-- what `marshalMessageSetField` writes for an extension kept as raw records (one per occurrence
-in the input): ONE item whose message field is the first record and in which every further
-record stands as a field with the extension's own number -/
 theorem encodeLazyItem_records (t : Nat) (lp p : Bytes) (rs : List (Bytes × Bytes)) :
     encodeLazyItem t (lazyRecords t ((lp, p) :: rs)) =
       (El.item (.typeId t :: .message lp p :: lazyOthers t rs)).enc := by
@@ -120,8 +313,7 @@ theorem toksLen_lazyOthers (t : Nat) : ∀ rs, toksLen (lazyOthers t rs) = 0
   | [] => rfl
   | (lp, p) :: r => by simp [lazyOthers, toksLen, Tok.len, toksLen_lazyOthers t r]
 
-/-- decoding that item again (either path): only the FIRST occurrence is seen; the others are
-skipped as foreign fields of the item -/
+/-- the OLD lazily kept form decodes to the FIRST occurrence only -/
 theorem decodeSet_lazyItem (known : Nat → Bool) (w : Bool) {t : Nat} {lp p : Bytes} (rs : List (Bytes × Bytes))
     (h1 : 1 ≤ t) (h2 : t < 2 ^ 31) (h3 : t ≠ 3) (h : IsVarint lp p.length)
     (hrs : ∀ r ∈ rs, IsVarint r.1 r.2.length) (hk : known t = true) :
@@ -136,32 +328,40 @@ theorem decodeSet_lazyItem (known : Nat → Bool) (w : Bool) {t : Nat} {lp p : B
       · exact h
       · exact lazyOthers_wf h1 h2 h3 rs hrs y hy
     · simpa [toksLen, Tok.len, toksLen_lazyOthers] using h.lt
-  have hu := unmarshalItems_els w [El.item (.typeId t :: .message lp p :: lazyOthers t rs)] (by
+  have hu := unmarshalItems_els true [El.item (.typeId t :: .message lp p :: lazyOthers t rs)] (by
     intro x hx
     simp only [List.mem_cons, List.not_mem_nil, or_false] at hx
     subst hx; exact hwf)
   have h0 : t ≠ 0 := by omega
-  have hne : (lp ++ p).length ≠ 0 := by have := h.length_pos; simp only [List.length_append]; omega
   simp only [encEls, List.append_nil] at hu
   unfold decodeSet
   rw [hu]
   have hd := decBytes_raw h []
   simp only [List.append_nil] at hd
-  cases w
-  · simp [El.callback, stepTok, foldl_lazyOthers, h0, finMsg, repMsg, applyItems, applyItem, hk, Content.empty, mergeItem]
-  · have hlp : lp ≠ [] := by
-      intro hc; have := h.length_pos; simp [hc] at this
-    simp [El.callback, stepTok, foldl_lazyOthers, h0, finMsg, repMsg, hlp, applyItems, applyItem, hk, Content.empty,
-      mergeItem, hd]
+  have hlp : lp ≠ [] := by
+    intro hc; have := h.length_pos; simp [hc] at this
+  simp [El.callback, stepTok, foldl_lazyOthers, h0, finMsg, repMsg, hlp, applyItems, applyItem, hk, Content.empty,
+    mergeItem, hd]
 
-theorem encodeLazyItem_length (t : Nat) (lb : Bytes) (h : sizeTag t ≤ lb.length) :
-    (encodeLazyItem t lb).length = sizeLazyItem t lb := by
-  simp only [encodeLazyItem, appendFieldEnd, appendFieldStart, List.length_append, List.length_nil,
-    List.length_drop, sizeLazyItem, sizeField, sizeVarint, sizeTag_eq fieldItem wStartGroup,
-    sizeTag_eq fieldTypeID wVarint, sizeTag_eq fieldMessage wBytes]
-  have := sizeTag_eq fieldItem wEndGroup
-  rw [sizeTag_eq fieldItem wStartGroup] at this
-  omega
+/-- the reflection path before ff1f95d: `messageset.Unmarshal(b, false, fn)`, an unresolved item
+stored with `AppendBytes(v)` (length prefix rewritten minimally) -/
+def applyItemRefl (known : Nat → Bool) (s : Content) (t : Nat) (v : Bytes) : Content :=
+  if known t then { s with items := mergeItem s.items t v }
+  else { s with unknown := s.unknown ++ tag t wBytes ++ encBytes v }
+
+def decodeSetRefl (known : Nat → Bool) (b : Bytes) : Except Err Content :=
+  match unmarshalItems false b with
+  | .error e => .error e
+  | .ok cs => .ok (cs.foldl (fun s x => applyItemRefl known s x.1 x.2) Content.empty)
+
+theorem decodeSetRefl_rawItem_unknown (known : Nat → Bool) {t : Nat} {lp p : Bytes}
+    (h1 : 1 ≤ t) (h2 : t < 2 ^ 31) (h : IsVarint lp p.length) (hk : known t = false) :
+    decodeSetRefl known (rawItem t lp p).enc = .ok ⟨[], tag t wBytes ++ encVarint p.length ++ p⟩ := by
+  unfold decodeSetRefl
+  rw [unmarshalItems_rawItem false h1 h2 h]
+  simp [applyItemRefl, hk, Content.empty, encBytes, List.append_assoc]
+
+end Old
 
 /-! ### totality: the loop budgets of the model are never exhausted -/
 
